@@ -160,7 +160,10 @@ def _groups_contracts(target, ctx, params):
         hints[f"known_members = members.intersection({M}.keys())"] = [f"all(iff(g in known_members, g in {M}) for g in members)"]
         # past the `if known_members: .. continue` guard: none of the members is in the membership map, hence (own-dom) none
         # has an owner yet -- stated once here, in the form the member loop's invariants start from
-        hints[f"group = side{k}Groups.get(name)"] = [f"all(g not in {M} for g in members)", f"all(g not in owner{k} for g in members)"]
+        # ... and therefore the group cannot have been kept already (its exported members would all have an owner): the
+        # `elif set(group) != members` / "same group again" paths are infeasible, which this makes explicit for the path pruner
+        hints[f"group = side{k}Groups.get(name)"] = [f"all(g not in {M} for g in members)", f"all(g not in owner{k} for g in members)",
+                                                     f"name not in side{k}Groups"]
         # the truncated name, under the name used by the quantified clauses
         hints[f"name_truncated = name[len(SIDE{k}_PREFIX):]"] = [f"name_truncated == k5_trunc(name, {len(P1)})"]
         loops[f"for member in members#{k}"] = _own_member_loop(k)
